@@ -132,6 +132,48 @@ def run(ctx):
                 want["Matching commits to trees"] = j["unique_commit_count"]
             if finals != want:
                 res.violations.append(vlib.Violation("final progress lines differ from the census", inp, expected=want, observed=finals))
+        # counts that are exact multiples of a plausible batch size (256, 1000, 1024, 2048, 4096) and their neighbours: the final
+        # line of every phase carries the exact count whatever the count is
+        import scanprops as SP
+        for nt in (255, 256, 257, 1000, 1023, 1024, 1025, 2048) + (() if quick else (4096, 8192, 10000, 65536)):
+            scs = [SP.wide_scenario(nt - 3, False)]                      # nt distinct trees, nt - 3 ... blobs: 1
+            hs = S.Scenario()
+            hb = hs.add({"kind": "blob", "data": b"x"})
+            ht = hs.add({"kind": "tree", "entries": [(0o100644, b"f", hb)]})
+            prev = None
+            for i in range(nt):
+                prev = hs.add({"kind": "commit", "tree": ht, "parents": [prev] if prev is not None else [], "date": 1000000000 + i, "msg": b"c\n"})
+            g = prev
+            for i in range(min(nt, 300)):
+                g = hs.add({"kind": "tag", "target": g, "name": b"v%d" % i})
+            hs.refs.append((b"refs/tags/deep", g))
+            for i in range(min(nt, 1100)):
+                hs.refs.append((b"refs/heads/b%05d" % i, prev))
+            scs.append(hs.compute())
+            bs = S.Scenario()
+            bt = bs.add({"kind": "tree", "entries": [(0o100644, b"f%05d" % i, bs.add({"kind": "blob", "data": b"%d" % i})) for i in range(nt)]})
+            bs.refs.append((b"refs/heads/main", bs.add({"kind": "commit", "tree": bt, "parents": []})))
+            scs.append(bs.compute())                                     # nt distinct blobs
+            for sc in scs:
+                rootsx = [x for _, x in sorted(sc.refs)]
+                order = sc.enum_gitlike(sorted(set(rootsx)))
+                rc1, out1, err1, _ = eng.run_fake(sc, order, [], [], extra_args=["--json", "--progress"], timeout=300)
+                res.case(("batch-boundary", nt, len(sc.objects)), True)
+                inp = {"scenario": "%d objects; a count of exactly %d in one phase" % (len(sc.objects), nt), "args": ["--json", "--progress"]}
+                if rc1 != 0:
+                    res.violations.append(vlib.Violation("run failed", inp))
+                    continue
+                j = json.loads(out1)
+                finals = {}
+                for line in err1.split(b"\n"):
+                    m = re.match(rb"(.*?): (\d+) ", line.split(b"\r")[-1])
+                    if m:
+                        finals[m.group(1).decode()] = int(m.group(2))
+                want = {"Processing blobs": j["unique_blob_count"], "Processing trees": j["unique_tree_count"],
+                        "Processing commits": j["unique_commit_count"], "Processing annotated tags": j["unique_tag_count"],
+                        "Processing references": len(sc.refs), "Matching commits to trees": j["unique_commit_count"]}
+                if finals != want:
+                    res.violations.append(vlib.Violation("final progress lines differ from the census", inp, expected=want, observed=finals))
         # the 32-bit build (the project releases linux/386 and windows/386): 64-bit atomics on the meter's counter need an
         # alignment that only such a build can get wrong
         s386 = vlib.build_sizer_arch("386")
